@@ -82,6 +82,11 @@ def gen_cases(rng, tier):
           "ceil(x / 2) // 2", "h()", "exp(x)", "Exp(y) * x",
           "sgn(x - 3)", "sgn(-2) * x", "SGN(x) / 2", "sgn(3)/sgn(5)*3", "sgn(y - x) * sgn(x - y)", "2 ^ sgn(x)", "sgn(0) + sgn(1/3)"]
     texts += fn
+    # round with one and with two arguments on exact numbers: to the nearest multiple of 10^(-n), ties to the even multiple,
+    # a NEGATIVE number of digits included (tens, hundreds); on symbols the call stays as it is
+    texts += ["round(12345, -2)", "ROUND(12350, -2)", "round(12450, -2) + x", "round(-12350, -2)", "round(1987, -3)", "round(2 ^ 10, -1)",
+              "round(1234, -(1 + 1))", "round(7/2)", "round(5/2) * x", "Round(-7/2)", "round(25, -1)", "round(35, -1)", "round(7, 0) + y",
+              "round(41, 1)", "round(x / 3, 1)", "round(x)", "round(x, -1) - round(y)", "round(7, y)", "round(10, -1) / round(4)"]
     # random trees printed with redundant parentheses
     n_rand = 150 if tier == "quick" else 4000
     for _ in range(n_rand):
